@@ -62,12 +62,15 @@ Value& HASHExpression::value(Context & ctx) const
       break;
     case Type::NUMERIC:
       if (!a1.isNull())
-        max_size = (uint32_t)*a1.numeric();
+        max_size = (uint32_t)Value::toInteger(*a1.numeric());
       break;
     default:
       throw RuntimeError(EXC_RT_FUNC_ARG_TYPE_S, KEYWORDS[oper]);
     }
   }
+  /* the modulus cannot be zero */
+  if (max_size == 0)
+    throw RuntimeError(EXC_RT_DIVIDE_BY_ZERO);
   switch (val.type().major())
   {
   case Type::NO_TYPE:
